@@ -1860,7 +1860,7 @@ pub fn run_c16(ctx: &Ctx) -> i32 {
         evaluations: acc.get("evaluations"),
         distinct_nontrivial: nontrivial,
         exhaustive: true,
-        bounds: json!({"max_dim_complete_enumeration": 3, "families": "position alphabet (indefinite / semi-definite / 1e-310 blocks at every diagonal position) dims 2..8; Hilbert, Pascal, sunrise-like, graded, bordered, balanced-pivot, graded-block families to 8x8 x 14 tolerances", "relations": ["ZeroDet without the test => ZeroDet with it", "verdict with print_debug_info = return_metadata = true == quiet verdict"], "tolerances": TOLS.iter().map(|t| format!("{t:?}")).collect::<Vec<_>>()}),
+        bounds: json!({"max_dim_complete_enumeration": 3, "families": "position alphabet (indefinite / semi-definite / 1e-310 blocks at every diagonal position) dims 2..8; Hilbert, Pascal, sunrise-like, graded, bordered, balanced-pivot, graded-block families to 8x8 x 14 tolerances", "reciprocal_faults": "tracking scalar, one inv() answer (each call position, and all) times 1+2^-10 / 1-2^-10 / 1+2^-20; dense, arrowhead, tridiagonal, graded SPD matrices dims 2..6 (thorough 8) in both row orders + graph L matrices; tolerances d*k/32, k=1..31, and d(1-2^-10); judged only where d - tol > rigorous slack", "relations": ["ZeroDet without the test => ZeroDet with it", "verdict with print_debug_info = return_metadata = true == quiet verdict"], "tolerances": TOLS.iter().map(|t| format!("{t:?}")).collect::<Vec<_>>()}),
         assumptions: vec!["tol = NaN is outside 'all tolerances'".into(), "panics on non-definite input are recorded, not judged (the property does not promise panic-freedom there)".into()],
         extra: Default::default(),
     };
